@@ -87,6 +87,20 @@ def d1(chk, prog, ploidies):
             r = ref_exp_oracle(c, P, hap, True, None)[0]
             want = f_round(t_mul(T(r), f_exp2(rows[i]["log2"])))
             tb2.cell(same(out.cols["ncopies"].v[i], want) and out.cols["label"].v[i] == f"g{i}", dict(ploidy=P, hap=hap, cls=c, ncopies=repr(out.cols["ncopies"].v[i]), want=repr(want), label=out.cols["label"].v[i]))
+    # ... also when a PAR genome is given: the estimate without a cn column is the pure one, r = the reference's copies of that chromosome
+    for P, hap, fem in itertools.product([2], [False, True], [False, True]):
+        W.reset()
+        it = Interp(prog, par_model())
+        cl = list(CLS5)
+        rows = seg_rows(cl, "chr", [0] * len(cl), with_cn=False)
+        g = make_ga("CopyNumArray", rows, {"_classes": cl, "sample_id": "S"}, index="any")
+        out = tb2.guard(lambda: it.run(fi.qn, [g, P, hap, "grch38", fem, None, "all"]), f"P={P} hap={hap} fem={fem} PAR genome")
+        if out is None:
+            continue
+        for i, c in enumerate(cl):
+            r = ref_exp_oracle(c, P, hap, True, None)[0]
+            want = f_round(t_mul(T(r), f_exp2(rows[i]["log2"])))
+            tb2.cell(same(out.cols["ncopies"].v[i], want), dict(ploidy=P, hap=hap, fem=fem, par_genome="grch38", cls=c, ncopies=repr(out.cols["ncopies"].v[i]), want=repr(want)))
     tb2.done("export bed without a cn column does not report round(r * 2^log2) / the gene as label")
 
 
